@@ -20,6 +20,7 @@ called with Some(0) (empty batch, queues untouched — C06.R3), the finished tes
 queued entries, and the loop is left only when the in-flight set is empty; (R4) leftover brackets are closed before
 run-Finished; (R5) ingestion stops at the first parser error when fail-fast is on.
 Not decided: equivalence with a normal run when nothing fails (a relation between two runs).
+Added after the second seeded round: (R4, extended) the closing sweep closes leftover rules before leftover features; (R6) the verdict that trips fail-fast classifies failed before hooks, steps and after hooks as failed (= C05.R2).
 """
 DECLINED = ["same per-scenario outcomes as a non-fail-fast run when nothing fails (behavioural equivalence of two runs)"]
 ASSUMPTIONS = []
